@@ -33,7 +33,8 @@ EXTENDS DesignSpace
 CONSTANTS AsCoded,   \* subset of {"D1","D3","D15","D16","S1"}; {} = the rules of the code (after repair of D1..D16)
           Vias,      \* subset of {"add","extend","from"}: how a variable is added
           Forms,     \* subset of {"array","dict"}: argument form of set_current_value
-          QKinds,    \* subset of {"normalize","unnormalize","round","project"}: which call fills the normalisation data
+          QKinds,    \* subset of {"normalize","unnormalize","round","project","grad"}: which call fills the normalisation data
+                     \* ("grad": normalize_grad / unnormalize_grad of the probe Jacobian in every representation of GradReprs)
           FilterModes, \* subset of {"inplace","copy"}: filter(keep) on the object itself or on the copy it returns
           Enabled    \* the actions of this module that may be taken (focused configurations switch some off)
 
